@@ -23,6 +23,7 @@ EV_PROP = {
     "acquired": "C15", "locked": "C15", "acquiring": "C15", "locking": "C15", "write": "C15", "flush": "C15", "releasing": "C15", "unlocking": "C15", "frag": "C15",
     "idle": "C16", "sort": "C16", "run": "C16", "alldone": "C16", "hang": "C16", "panic": "C16",
     "add": "C16", "dep": "C16", "retries": "C16", "deferr": "C16", "config": "C16",
+    "dot": "C16", "validate": "C16", "rerun": "C16", "tmadd": "C16", "tmgetbad": "C16",
 }
 DIAG_PROP = {
     "dependency-not-finished": ("C13",), "launched-twice": ("C13",),
@@ -44,6 +45,7 @@ CONSTANTS
   WithEnvLock = %(envlock)s
   Outcomes = %(outcomes)s
   MaxFrags = %(maxfrags)d
+  WithTaskMap = %(taskmap)s
 INVARIANTS %(invs)s
 %(props)s
 CHECK_DEADLOCK FALSE
@@ -52,7 +54,7 @@ CHECK_DEADLOCK FALSE
 
 def mc(name, **kw):
     d = dict(spec="Spec", tasks="{1, 2, 3}", maxretries=0, mode="run", limits="{1, 2}", serials="{FALSE}", buffereds="{FALSE}",
-             maxhist=0, cancel="FALSE", envlock="FALSE", outcomes='{"nil", "err", "skipparents"}', maxfrags=0, invs=INVS, props="")
+             maxhist=0, cancel="FALSE", envlock="FALSE", outcomes='{"nil", "err", "skipparents"}', maxfrags=0, invs=INVS, props="", taskmap="FALSE")
     d.update(kw)
     return (name, MC_BASE % d)
 
@@ -81,8 +83,10 @@ MC_CONFIGS = {
     },
     "C16": {
         "quick": [mc("histories", mode="build", maxhist=4, limits="{2}", outcomes='{"nil"}'),
+                  mc("taskmap", mode="build", tasks="{1, 2}", maxhist=4, limits="{2}", outcomes='{"nil"}', taskmap="TRUE"),
                   mc("liveness", spec="LiveSpec", tasks="{1, 2}", maxretries=1, limits="{1, 2}", serials="{FALSE, TRUE}", cancel="TRUE", props=LIVE)],
         "thorough": [mc("histories5", mode="build", maxhist=5, limits="{2}", outcomes='{"nil"}'),
+                     mc("taskmap", mode="build", maxhist=4, limits="{2}", outcomes='{"nil"}', taskmap="TRUE"),
                      mc("histories4-outcomes", mode="build", maxhist=4, limits="{1, 2}", outcomes='{"nil", "err"}', maxretries=1),
                      mc("liveness3", spec="LiveSpec", limits="{1, 2}", serials="{FALSE, TRUE}", cancel="TRUE", props=LIVE)],
     },
@@ -159,6 +163,7 @@ CONSTANTS
   WithEnvLock = FALSE
   Outcomes = {"nil", "err", "skipparents"}
   MaxFrags = 0
+  WithTaskMap = FALSE
 INVARIANT EmitBehaviour
 CHECK_DEADLOCK FALSE
 """
